@@ -6,6 +6,10 @@ import os
 VERIF = os.path.dirname(os.path.dirname(os.path.abspath(__file__)))
 
 CHECKS = {
+    "C01": dict(cat="model_checking", design="6 C01",
+                text="Compress.tla (4-stage pipeline + tokio temp-file hand-off) model-checked over every schedule of task completion, background write and copy (with the un-awaited hand-off as a negative configuration that must fail); every source shape of the bound and a seeded sample of the input x configuration product is compressed by the library writer and by the real bita process (also under the late-temp-write schedule forced with strace), decoded independently, cloned back locally and over HTTP; CompressTrace.tla checks Describes(archive, source), the recorded size/checksum and byte-exact round trip.",
+                note="byte equality, Blake2 and codecs enter as booleans computed by the harness; sampled (seeded) over the configuration product, exhaustive over source shapes of the bound",
+                tech="TLA+ spec + TLC over all schedules; TLC-generated scenarios replayed through both writers; TLC trace validation"),
     "C02": dict(cat="model_checking", design="6 C02",
                 text="Clone.tla with seed streams (own chunks, foreign chunks, size twins) model-checked exhaustively in small scope; every scenario of the bound replayed into the real Archive/CloneOutput/ChunkIndex code and every recorded read/write/request validated by TLC against CloneTrace.tla (final exactness, write discipline).",
                 note="ideal strong hash (A1); seed chunks are fed as the CLI does minus the chunker (chunker is C09/C10; CLI orchestration with real seeds is the L2 part)",
@@ -38,6 +42,14 @@ CHECKS = {
                 text="Resync stated on Chunker.tla's reference (machine = reference by ReadIndependent; NoBad = every boundary test is made on the stream's trailing window) model-checked over all prefix pairs / suffixes / trigger predicates of the bound, with the pre-repair BuzHash initial state as a negative configuration that must fail; on the real chunker all prefix pairs up to length 2 x suffixes up to length 5 (7) over 3 values x 12 (algorithm, window, bits) groups plus thousands of large random pairs (zero-run prefixes included) are chunked and ChunkerTrace.tla evaluates the property literally on the boundaries.",
                 note="D2 hash uninterpreted",
                 tech="TLA+ spec + TLC; exhaustive small-scope and randomized large pairs on the real chunker; TLC trace validation"),
+    "C11": dict(cat="model_checking", design="6 C11",
+                text="ArchiveFormat.tla states the documented layout (WriterRule: magic, dictionary size, data offset = header length, header checksum, unique descriptors in first-occurrence order stored back to back, stored <= source size, valid rebuild indexes summing to the source size, file ends at the last chunk) plus SettingsRule / ReaderRule (requested settings recorded verbatim and reported back); every archive produced in the C01 scenario set by both writers is projected by an independent decoder and judged by TLC; Compress.tla proves the layout for every schedule.",
+                note="the independent decoder/encoder (refcodec.rs, written from header.rs' table and the .proto) is trusted",
+                tech="TLA+ format specification evaluated by TLC on independently decoded archives; TLC model checking of the writer pipeline"),
+    "C12": dict(cat="model_checking", design="6 C12",
+                text="Compress.tla's Complete invariant makes the archive a function of the source alone under every schedule and buffering level (TLC, all interleavings); on the code each scenario is compressed again under other buffered-chunks values, pipe vs file delivery with scripted fragments, and the late-temp-write schedule, and CompressTrace.tla requires identical archive digests per writer.",
+                note="schedules of the blocking pool cannot be enumerated on the real process; they are varied (buffering, delivery, injected syscall delay) rather than exhausted",
+                tech="TLA+ spec + TLC over all schedules; repeated differently-scheduled runs of both writers judged by TLC trace validation"),
     "C13": dict(cat="model_checking", design="6 C13",
                 text="WriteDiscipline (W1 whole source chunk at one of its offsets, W2 once, W3 never an in-place location, W4 nothing beyond the source) as a rule on every WriteOut step of Clone.tla, model-checked; every write of every replayed scenario on the real code is validated against the same rule by TLC.",
                 note="writes observed at the AsyncWrite boundary of an instrumented in-memory file with content projected to chunk cells",
